@@ -792,6 +792,30 @@ static void dump_mpf (mpf_QSdata * p)
 	if (sense) mpf_QSfree (sense);
 }
 
+static mpq_QSdata *clone_prob (mpq_QSdata * p)
+{
+	int n = mpq_QSget_colcount (p), m = mpq_QSget_rowcount (p), j, os = 0, rv;
+	int *rowcnt = 0, *rowbeg = 0, *rowind = 0;
+	mpq_t *rowval = 0, *rhs = 0, *range = 0, *obj = mpq_EGlpNumAllocArray (n + 1), *lo = mpq_EGlpNumAllocArray (n + 1), *up = mpq_EGlpNumAllocArray (n + 1);
+	char *sense = 0;
+	mpq_QSdata *q = NULL;
+	rv = mpq_QSget_objsense (p, &os);
+	if (!rv && n) rv = mpq_QSget_obj (p, obj);
+	if (!rv && n) rv = mpq_QSget_bounds (p, lo, up);
+	if (!rv) rv = mpq_QSget_ranged_rows (p, &rowcnt, &rowbeg, &rowind, &rowval, &rhs, &sense, &range, 0);
+	if (!rv) q = mpq_QScreate_prob ("clone", os);
+	for (j = 0; q && !rv && j < n; j++) rv = mpq_QSnew_col (q, obj[j], lo[j], up[j], NULL);
+	if (q && !rv && m) rv = mpq_QSadd_ranged_rows (q, m, rowcnt, rowbeg, rowind, (const mpq_t *) rowval, (const mpq_t *) rhs, sense, (const mpq_t *) range, NULL);
+	if (rv && q) { mpq_QSfree_prob (q); q = NULL; }
+	mpq_EGlpNumFreeArray (obj); mpq_EGlpNumFreeArray (lo); mpq_EGlpNumFreeArray (up);
+	mpq_EGlpNumFreeArray (rowval); mpq_EGlpNumFreeArray (rhs); mpq_EGlpNumFreeArray (range);
+	if (rowcnt) mpq_QSfree (rowcnt);
+	if (rowbeg) mpq_QSfree (rowbeg);
+	if (rowind) mpq_QSfree (rowind);
+	if (sense) mpq_QSfree (sense);
+	return q;
+}
+
 /* ---- one line --------------------------------------------------------------------------- */
 static void exec_tokens (void);
 
@@ -950,6 +974,16 @@ static void exec_tokens (void)
 		if (h2 != h && H[h2]) mpq_QSfree_prob (H[h2]);
 		if (h2 == h) { if (q) mpq_QSfree_prob (q); printf ("R COPY SKIP samehandle\n"); }
 		else { H[h2] = q; res_simple (q ? 0 : 1); }
+	}
+	else if (!strcmp (OP, "CLONE"))
+	{
+		/* a fresh problem built from what the query API reports (independent of QScopy_prob) */
+		int h2 = tk_handle ('h', NH);
+		NEEDH (h);
+		if (h2 == h) { printf ("R CLONE SKIP samehandle\n"); goto DONE; }
+		if (H[h2]) { mpq_QSfree_prob (H[h2]); H[h2] = NULL; }
+		H[h2] = clone_prob (H[h]);
+		res_simple (H[h2] ? 0 : 1);
 	}
 	else if (!strcmp (OP, "COPYDBL"))
 	{
@@ -1299,6 +1333,7 @@ int main (int argc, char **argv)
 	QSlog_set_handler (qsx_log_sink, NULL);
 	T = (char **) malloc (sizeof (char *) * QSX_MAXTOK);
 	printf ("M "); mpq_out_str (stdout, 10, mpq_ILL_MAXDOUBLE); putchar ('\n');
+	fflush (stdout);
 	while (getline (&line, &cap, in) >= 0)
 	{
 		split_line (line);
